@@ -12,10 +12,13 @@ import itertools, json, os, subprocess, sys
 
 PROP = "C19"
 GEN = ["gen_settings"]
-RULE = ("histories = entry configuration x body of the with-block (all op sequences up to length 2 over a 27-op alphabet in quick, "
-        "length 3 over a 14-op alphabet and seeded random long histories with nested contexts / manual save-restore-copy in "
-        "thorough) ; compared: exception of every operation, snapshot of all globals before/inside/after; non-trivial = the body "
-        "changes at least one global or raises")
+RULE = ("histories = entry configuration (8) x body of the with-block: all op sequences of length <= 2 over a 31-op alphabet, all "
+        "nested-context triples a; with: b; c over 9 ops from 3 entries, 300 seeded random histories (length 3-9, nested with-blocks, "
+        "manual save/restore/copy/__enter__/__exit__); thorough adds all bodies of length 3 over 14 ops from 5 entries and 12000 random "
+        "histories.  Compared model vs implementation: the exception of every operation and the snapshot of all globals "
+        "before / inside / after the block.  Oracles on the implementation: exact restoration + no exception from __exit__, "
+        "whitespace scope of set_default_whitespace_chars / new / copy, mutual exclusion and refusal without force.  "
+        "non-trivial = the body changes at least one global or some operation raises")
 TRUSTED = ["tools/props/c19.py: the snapshot function (which Python attribute is which model field), the op interpreter that "
            "calls the public pyparsing API, the grouping of the 70 built-in expressions into classes of equal (whiteChars, "
            "copyDefaultWhiteChars); tools/translate/gen_settings.py: the typing table of the globals, `set(chars)` read as `chars`, "
@@ -58,6 +61,7 @@ class Real:
         for g in self.groups:
             names = sorted({type(e).__name__ for e in g})
             self.group_label.append("+".join(names) if len(names) <= 2 else "%d-classes" % len(names))
+        self.nprobes = 0
         self.import_state = self.raw_globals()
         self.import_snapshot = self.snap([])
 
@@ -190,11 +194,15 @@ class Real:
                 elif k == "verbose":
                     PE.verbose_stacktrace = op[1]
                 elif k == "new":
-                    W["users"].append([pp.Word("ab"), pp.Literal("x"), pp.Keyword("if"), pp.Regex("a+")][len(W["users"]) % 4])
+                    n = len(W["users"]) % 4
+                    W["users"].append([pp.Word("ab"), pp.Literal("x"), pp.Keyword("if"), pp.Regex("a+")][n])
+                    W["probe"].append(self.PROBE_TEXT[n])
                 elif k == "copy":
                     W["users"].append(W["users"][op[1]].copy())
+                    W["probe"].append(W["probe"][op[1]])
                 elif k == "copy_builtin":
                     W["users"].append(self.groups[op[1]][0].copy())
+                    W["probe"].append(None)      # no probe text for copies of built-ins
                 elif k == "setwsof":
                     W["users"][op[1]].set_whitespace_chars(op[2], copy_defaults=op[3])
                 elif k == "save":
@@ -303,9 +311,30 @@ class Real:
             viol.append({"kind": "restore", "exit": exit_exc or "ok", "fields": sorted(names), "path": path,
                          "before": {f: before[f] for f in diff}, "after": {f: after[f] for f in diff}})
 
+    PROBE_TEXT = ["ab", "x", "if", "aa"]       # matched by Word("ab"), Literal("x"), Keyword("if"), Regex("a+") created by "new"
+    PROBE_WS = [" ", "\n", "\r", "q", "z"]      # candidate leading characters (none occurs in a probe text; no TAB: expandtabs)
+
+    def behaviour(self, W, viol):
+        """ties the whiteChars attribute to parsing behaviour: expression e skips a leading character c iff c in e.whiteChars
+        (every user expression here has skipWhitespace; copies keep the kind of their original)"""
+        for j, e in enumerate(W["users"]):
+            text = W["probe"][j]
+            if text is None:
+                continue
+            self.nprobes += len(self.PROBE_WS)
+            for c in self.PROBE_WS:
+                try:
+                    e.parse_string(c + text, parse_all=True)
+                    skipped = True
+                except self.pp.ParseBaseException:
+                    skipped = False
+                if skipped != (c in e.whiteChars):
+                    viol.append({"kind": "scope", "what": "behaviour-differs-from-whiteChars", "op": ["probe", j],
+                                 "char": c, "skipped": skipped, "whiteChars": "".join(sorted(e.whiteChars))})
+
     def run_case(self, case):
         self.hard_reset()
-        W = {"users": [], "ctxs": []}
+        W = {"users": [], "ctxs": [], "probe": []}
         exns, viol, marks = [], [], {}
         self.run_ops(case["entry"], W, exns, viol, ["entry"])
         if case["mode"] == "with":
@@ -314,6 +343,10 @@ class Real:
         else:
             self.run_ops(case["body"], W, exns, viol, [])
             obs = [self.snap(W["users"])]
+        final = self.snap(W["users"])
+        self.behaviour(W, viol)
+        if self.snap(W["users"]) != final:
+            viol.append({"kind": "scope", "what": "parsing-changed-a-setting", "op": ["probe", 0]})
         return {"exns": exns, "obs": obs, "viol": viol}
 
 
@@ -338,6 +371,7 @@ def worker_main():
     finally:
         R.restore_import_state()
     out["final"] = R.snap([])
+    out["nprobes"] = R.nprobes
     json.dump(out, sys.stdout)
 
 
@@ -691,6 +725,7 @@ def correspond(ctx):
                     json.dumps(c["entry"]), json.dumps(c["body"]), c["mode"], where[:600]))
         ctx.case(json.dumps(c), nontrivial(r), ok)
     ctx.stat("histories", len(cases))
+    ctx.stat("behaviour_probes", real.get("nprobes", 0))
     ctx.stat("disagreements", ndis)
     ctx.stat("with_blocks_restored_exactly", sum(1 for r in results if not any(v["kind"] == "restore" for v in r["viol"])))
     for c, r in list(zip(cases, results))[1:4]:
